@@ -1,5 +1,103 @@
-"""C17 - Lines connect their end points and stay on the ideal line  (metadata; generators live here and/or in props/C17_*.py parts)"""
-CLAIMED = False   # set True by the owner once ./check C17 passes with real theorems
+"""C17 - Lines connect their end points and stay on the ideal line."""
+from common import *
+
+CLAIMED = True
 LEVEL = 'proof'
-LEVEL_TEXT = 'TODO'
-LEVEL_NOTE = 'TODO'
+LEVEL_TEXT = ('Proof (thin lines): 12 Coq theorems over the Gallina model of BresenhamParameters::new / Bresenham::next / Points '
+              '(coq/Model/Line.v) state, for ALL lines with coordinates within +-2^28: first point = start, last = end, '
+              'max(|dx|,|dy|)+1 points, each step is one pixel along the major axis and 0 or 1 along the minor axis in the direction '
+              'of the line, every point is within half a pixel of the ideal line (2|cross| <= dmaj along the minor axis; '
+              '4 cross^2 <= dx^2+dy^2 Euclidean; projection inside the segment), coordinates are monotone, the sequence equals a closed '
+              'form (k*dmin/dmaj rounded to nearest, ties towards the start), points() commutes with translation, and no i32 '
+              'intermediate overflows. The model is tied to the code by running the extracted model and Line::points() on the same '
+              'inputs on every run.')
+LEVEL_NOTE = ('Trusted: Coq kernel, extraction (ExtrOcamlBasic), the OCaml/Rust drivers; the hand-written model is validated by '
+              'differential testing (exhaustive small grids + random long lines up to 2^20), not proved equal to the Rust code; '
+              'arithmetic is unbounded Z, the theorems carry line_ok (+-2^28) and C17_line_no_overflow shows i32 suffices there.')
+RULE = ('correspondence: Line::points() vs the extracted model for all lines with end points in [-R,R]^2 (R=5 quick, 9 thorough; '
+        'all octants, axis-parallel, diagonal, zero length), random lines of major length 20..40000 anywhere within +-2^19 with a '
+        'share of exact diagonals / ties (dmin = dmaj/2) / near-axis slopes, and whole-sequence digests of lines up to 2^21 long. '
+        'non-trivial = model result non-empty; distinct = distinct case lines. '
+        'search p_line: every thin clause of the property evaluated in exact i128 arithmetic on the real Line::points().')
+EXHAUSTIVE = {'quick': False, 'thorough': False}
+ASSUMPTIONS = ['line_ok: all four coordinates within +-2^28 (so that 2*|delta| and the error accumulator fit i32); '
+               'beyond it the implementation overflows (panic in debug, wrap in release) and C17 makes no claim']
+TRUSTED = ['modelled, not verified: Point +/-/abs as unbounded Z operations, `as u32` of a non-negative i32']
+PARTIAL = []
+
+
+def grid_lines(R):
+    rr = range(-R, R + 1)
+    for x0 in rr:
+        for y0 in rr:
+            for x1 in rr:
+                for y1 in rr:
+                    yield (x0, y0, x1, y1)
+
+
+def long_line(rng, maxlen):
+    """random line whose major length is about maxlen, anywhere within +-2^20; all octants, with a share of
+    exact diagonals / axis-parallel / near-tie slopes (dmin = dmaj/2 exactly or +-1)"""
+    x0, y0 = rng.randrange(-2 ** 19, 2 ** 19), rng.randrange(-2 ** 19, 2 ** 19)
+    dmaj = rng.randrange(maxlen // 2, maxlen + 1)
+    k = rng.random()
+    if k < 0.1:
+        dmin = dmaj
+    elif k < 0.2:
+        dmin = 0
+    elif k < 0.4:
+        dmin = max(0, min(dmaj, dmaj // 2 + rng.randrange(-1, 2)))
+    elif k < 0.5:
+        dmin = max(0, dmaj - rng.randrange(0, 3))
+    elif k < 0.6:
+        dmin = min(dmaj, rng.randrange(0, 3))
+    else:
+        dmin = rng.randrange(0, dmaj + 1)
+    sx, sy = rng.choice([-1, 1]), rng.choice([-1, 1])
+    if rng.random() < 0.5:
+        return (x0, y0, x0 + sx * dmaj, y0 + sy * dmin)
+    return (x0, y0, x0 + sx * dmin, y0 + sy * dmaj)
+
+
+def cases(tier, rng):
+    R = 5 if tier == 'quick' else 9
+    for l in grid_lines(R):
+        yield J('line_points', *l)
+    n = 1500 if tier == 'quick' else 20000
+    for _ in range(n):
+        yield J('line_points', *long_line(rng, rng.choice([20, 60, 200])))
+        yield J('line_digest', *long_line(rng, rng.choice([1000, 5000, 40000])))
+    for _ in range(12 if tier == 'quick' else 120):
+        yield J('line_walk', *long_line(rng, 2 ** 20))
+    # the two extreme corners of the generator range
+    yield J('line_walk', -2 ** 20, -2 ** 20, 2 ** 20, 2 ** 20 - 1)
+    yield J('line_walk', 2 ** 20, -2 ** 20, -2 ** 20, 1)
+    # ---- thick lines: Styled<Line>::pixels(), order included; styled bounding box
+    RT, WT = (7, 9) if tier == 'quick' else (12, 12)
+    for (x1, y1) in [(x, y) for x in range(-RT, RT + 1) for y in range(-RT, RT + 1)]:
+        for w in range(0, WT + 1):
+            # Bresenham and ParallelsIterator are relative to start: lines from the origin in every direction ...
+            yield J('thick_pixels', 0, 0, x1, y1, w)
+            yield J('line_sbb', 0, 0, x1, y1, w)
+    # ... and the full grid of end point pairs on a smaller radius
+    RS = 3 if tier == 'quick' else 5
+    for l in grid_lines(RS):
+        for w in (0, 1, 2, 3, 4, 5, 8):
+            yield J('thick_pixels', *l, w)
+    n = 1500 if tier == 'quick' else 20000
+    for _ in range(n):
+        w = rng.choice([0, 1, 2, 3, 4, 5, 6, 7, 9, 12, 20, 33])
+        yield J('thick_pixels', *long_line(rng, rng.choice([10, 30, 80])), w)
+        yield J('line_sbb', *long_line(rng, rng.choice([10, 30, 80, 1000])), w)
+        yield J('thick_digest', *long_line(rng, rng.choice([300, 2000])), rng.choice([1, 2, 3, 5, 8, 13, 40]))
+
+
+def search(tier, rng):
+    R = 5 if tier == 'quick' else 9
+    for l in grid_lines(R):
+        yield J('p_line', *l)
+    n = 3000 if tier == 'quick' else 40000
+    for _ in range(n):
+        yield J('p_line', *long_line(rng, rng.choice([20, 60, 200, 1000, 5000])))
+    for _ in range(20 if tier == 'quick' else 200):
+        yield J('p_line', *long_line(rng, 2 ** 20))
